@@ -38,9 +38,15 @@ THEOREMS = CLOSURE_THEOREMS + [
     "PauLie.C19.clo_a16", "PauLie.C19.clo_a11", "PauLie.C19.clo_a15", "PauLie.C19.clo_b4", "PauLie.C19.clo_a13",
     "PauLie.C19.clo_a20", "PauLie.C19.clo_a7", "PauLie.C19.count_qY", "PauLie.C19.count_tX0", "PauLie.C19.count_T13",
     "PauLie.C19.count_T7",
+    "PauLie.C19.C19_a6", "PauLie.C19.C19_a10", "PauLie.C19.C19_a9", "PauLie.C19.C19_b2", "PauLie.C19.C19_a5", "PauLie.C19.C19_a3",
+    "PauLie.C19.C19_dimension_last", "PauLie.C19.C19_dimension_all",
+    "PauLie.C19.clo_transfer", "PauLie.C19.card_transfer", "PauLie.C19.clo_a6", "PauLie.C19.clo_a10", "PauLie.C19.clo_a9",
+    "PauLie.C19.clo_b2", "PauLie.C19.clo_a5", "PauLie.C19.clo_a3", "PauLie.C19.clo_pat", "PauLie.C19.excG_spec",
+    "PauLie.C19.closeN_sound", "PauLie.C19.clo_of_peelChkN", "PauLie.C19.count_T9", "PauLie.C19.count_TB2",
+    "PauLie.C19.cntS_closed", "PauLie.C19.count_TP", "PauLie.C19.count_T5", "PauLie.C19.count_T3",
 ]
 IMPORTS = CLOSURE_IMPORTS + ["PauLieVerif.Proofs.TieTwoLocal", "PauLieVerif.Properties.C19", "PauLieVerif.Properties.C19More",
-    "PauLieVerif.Properties.C19Rows", "PauLieVerif.Properties.C19Su", "PauLieVerif.Properties.C19Rest"]
+    "PauLieVerif.Properties.C19Rows", "PauLieVerif.Properties.C19Su", "PauLieVerif.Properties.C19Rest", "PauLieVerif.Properties.C19Last"]
 
 FAMILIES = ["a%d" % i for i in range(23)] + ["b%d" % i for i in range(5)]
 KNOWN_N3 = ("a11", "a12", "a17")
@@ -255,7 +261,9 @@ RULE = ("all 28 families of G_LIE x chain lengths n: (i) n=3..6 (thorough ..8): 
 def main(tier):
     return standard_main(PID, tier, "other", THEOREMS, IMPORTS, build_streams, known_match=known_match, rule=RULE,
         assumptions=["proved for all n>=3: the table tie on 3<=n<=40, name arithmetic and low-rank coincidences, and the families whose "
-                     "translated generators commute pairwise (a0, b0, b1: closure = generators, count = number of u(1) summands), and closure + dimension of a1 (intervals, n(n-1)/2) and b3 (single-site strings, 3n)",
+                     "translated generators commute pairwise (a0, b0, b1: closure = generators, count = number of u(1) summands), and closure + dimension of a1 (intervals, n(n-1)/2) and b3 (single-site strings, 3n); "
+                     "the DIMENSION clause for all 28 families and every n>=3 (a11, a12, a17: n>=4) with the closure in closed form "
+                     "(C19_dimension_all; nine families with all invariants, C19_rows)",
                      "decided per (family, n) by the verified closure checker run by the compiled model: every other family for n<=6 "
                      "(thorough n<=8, n=8 by dimension only and without the six rows whose closure has 65535 strings — those are sized by the Python oracle; a full verified run VERIF_C19_FULL=1 takes ~25 min and agreed on 2026-10-01); beyond that only classifier-vs-table agreement is observed",
                      "isomorphism is decided through invariants (dimension, centre, per connected block: copies, simple dimension, "
